@@ -788,7 +788,8 @@ Proof.
     eapply mstep_weaken; [apply pstep_mstep; exact H|]. intros w G0 [NZ E]. exists [ev w r]. split; [apply PUSH|].
     rewrite <- (ev_args w vars args G0). fold a. cbn [sem]. rewrite !nth_ev, E. auto.
   - (* ToBinary *) intros [= <- <-]. apply pstep_mstep, perr.
-  - (* FromBinary *) destruct (b_frombinary st _ _ a) as [r st1] eqn:H. intros [= <- <-]. apply frombinary_ok in H. cbn [fst snd].
+  - (* FromBinary *) destruct a as [|a0' a'] eqn:EA; [intros [= <- <-]; apply pstep_mstep, perr|]. rewrite <- EA.
+    destruct (b_frombinary st _ _ a) as [r st1] eqn:H. intros [= <- <-]. apply frombinary_ok in H. cbn [fst snd].
     eapply mstep_weaken; [exact H|]. intros w G0 [HF E]. exists [ev w r]. split; [apply PUSH|].
     rewrite <- (ev_args w vars args G0). fold a. cbn [sem]. split; [apply Forall_map; exact HF|].
     rewrite E, (ev_cle w _ G0), cst0, fbv_map. f_equal. ring.
@@ -1826,7 +1827,8 @@ Proof.
     destruct (inverse_x _ _ _ _ H (BN O)) as [X B]. eapply (step_from_x vars st _ [r] st1); try eassumption; [reflexivity|intros E; constructor; [apply B; assumption|constructor]|].
     intros w rs G SEM. cbn [fst snd sem] in SEM. rewrite (ARGS w (proj1 G)), !nth_ev in SEM. apply SEM.
   - (* ToBinary *) injection S as <- <-. split; intros E; discriminate E.
-  - (* FromBinary *) destruct (b_frombinary st _ _ a) as [r st1] eqn:H. injection S as <- <-. cbn [fst snd] in *.
+  - (* FromBinary *) destruct a as [|a0' a'] eqn:EA; [injection S as <- <-; split; intros E; discriminate E|]. rewrite <- EA in *.
+    destruct (b_frombinary st _ _ a) as [r st1] eqn:H. injection S as <- <-. cbn [fst snd] in *.
     destruct (frombinary_x _ _ _ _ _ _ H (below_cle _ _ (proj1 WF)) BA) as [X B].
     eapply (step_from_x vars st _ [r] st1); try eassumption; [reflexivity|intros E; constructor; [apply B; assumption|constructor]|].
     intros w rs G SEM. cbn [fst snd sem] in SEM. rewrite (ARGS w (proj1 G)) in SEM. destruct SEM as [HF _].
